@@ -287,6 +287,7 @@ def thickness_edit(ctx):
                     return p
                 return super().read(key)
         ev = E2(heap=heap)
+        ev.drop_zero_index = True
         ev.env['value'] = A('value')
         ev.env['surface_number'] = C(s_)
         ev.lens = {'self.surface_group.surfaces': N}
@@ -763,6 +764,7 @@ def solve(ctx):
             return (A('YA'), A('UA'))
         return None
     ev = Ev(sym=sym, inline=inline)
+    ev.drop_zero_index = True
     off = None
     for s in f.node.body:
         if isinstance(s, ast.For):
@@ -814,6 +816,7 @@ def solve(ctx):
     g = P.func('Optic.image_solve')
     res.saw(g)
     ev = Ev(inline=inline)
+    ev.drop_zero_index = True
     last = None
     for s in g.node.body:
         if isinstance(s, ast.AugAssign):
@@ -826,8 +829,7 @@ def solve(ctx):
             and unparse(last.value) == 'offset' and \
             'surfaces[-1].geometry.cs.z' in unparse(last.target):
         # new image plane at distance d = -offset: y + u d = 0
-        ok = rat_eq(A('YA[-1][0]') + A('UA[-1][0]') * (-off), ZERO) or \
-            rat_eq(A('YA[-1]') + A('UA[-1]') * (-off), ZERO)
+        ok = rat_eq(A('YA[-1]') + A('UA[-1]') * (-off), ZERO)
     if ok:
         res.ok('image_solve: ya[-1] + ua[-1] * (-offset) = 0, image z -= offset')
     else:
